@@ -416,10 +416,13 @@ fn range_exceeds_bounds<const D: usize>(
         match &range[d] {
             None => continue,
             Some(range) => {
-                let range_end = range.start + range.length;
-                match range_end > end {
-                    true => return true,
-                    false => (),
+                match range.start.checked_add(range.length) {
+                    // a range whose end overflows certainly exceeds the bounds
+                    None => return true,
+                    Some(range_end) => match range_end > end {
+                        true => return true,
+                        false => (),
+                    },
                 };
             }
         }
